@@ -167,6 +167,28 @@ pub fn adversarial(thorough: bool) -> Adversarial {
       scripts.push(raw);
     }
   }
+  // property values: every 1-byte string and every 2-byte string starting on a CBOR major-type boundary,
+  // plain and announced as brotli-compressed (tag 19 = "br"), inside an otherwise ordinary envelope
+  let firsts: [u8; 22] = [0x00, 0x17, 0x18, 0x1f, 0x40, 0x5f, 0x60, 0x7f, 0x80, 0x81, 0x9f, 0xa0, 0xa1, 0xbf, 0xc0, 0xd8, 0xe0, 0xf4, 0xf6, 0xf9, 0xfb, 0xff];
+  let mut values: Vec<Vec<u8>> = (0..=255u8).map(|a| vec![a]).collect();
+  for a in firsts {
+    for b in 0..=255u8 {
+      values.push(vec![a, b]);
+    }
+  }
+  for v in &values {
+    for br in [false, true] {
+      let mut bytes = vec![0x00, 0x63, 0x03, b'o', b'r', b'd', 0x01, 0x01, 0x09, b'i', b'm', b'a', b'g', b'e', b'/', b'p', b'n', b'g'];
+      if br {
+        bytes.extend_from_slice(&[0x01, 0x13, 0x02, b'b', b'r']);
+      }
+      bytes.extend_from_slice(&[0x01, 0x11]);
+      bytes.push(v.len() as u8);
+      bytes.extend_from_slice(v);
+      bytes.extend_from_slice(&[0x00, 0x01, b'x', 0x68]);
+      scripts.push(bytes);
+    }
+  }
   let n_witness = scripts.len();
   // runestone scripts
   let ints: Vec<u128> = vec![0, 1, 2, 3, 4, 6, 8, 10, 12, 20, 22, 23, 126, 127, (1 << 32) - 1, 1 << 32, u64::MAX as u128, (u64::MAX as u128) + 1, u128::MAX];
@@ -250,7 +272,7 @@ pub fn adversarial(thorough: bool) -> Adversarial {
     blocks,
     cases,
     description: format!(
-      "{n_witness} tapscripts (ALL byte strings of length <= 2, plus ALL sequences of <= {seq_len} tokens over an {}-token opcode alphabet after an envelope header) x annex absent/present, \
+      "{n_witness} tapscripts (ALL byte strings of length <= 2, plus ALL sequences of <= {seq_len} tokens over an {}-token opcode alphabet after an envelope header, plus envelopes whose properties field (tag 17, plain and announced as brotli) holds every 1-byte value and every 2-byte value starting on a CBOR major-type boundary) x annex absent/present, \
        and {n_runestone} OP_RETURN scripts (OP_RETURN OP_13 followed by ALL byte strings of length <= 1, a grid of length 2, and ALL varint sequences of length <= {rs_len} over {} boundary integers): {cases} independent transactions",
       TOKENS.len(),
       ints.len()
